@@ -62,6 +62,13 @@ try:
         if not (issubclass(ty, ndarray) or ty is NDArray):
             return NotImplemented
 
+        def _is_concrete(scalar_ty: t.Any) -> bool:
+            try:
+                _numpy.dtype(scalar_ty)
+                return True
+            except Exception:
+                return False
+
         if issubclass(ty, ndarray):
             arg1 = t.Any if len(args) < 1 else args[0]
             dtype = t.Any if len(args) < 2 else args[1]
@@ -79,9 +86,10 @@ try:
         from ..converters import NestedSequenceConverter
 
         constructor: t.Any = array
-        if isinstance(dtype, type) and issubclass(dtype, generic) and dtype is not generic:
+        if isinstance(dtype, type) and issubclass(dtype, generic) and dtype is not generic and _is_concrete(dtype):
             # make the array with the declared element type (numpy would otherwise choose
             # one from the values: float64 for an empty list, int64 where int32 is declared)
+            # (not for abstract scalar types like `numpy.floating`, which are not dtypes: numpy chooses there)
             def constructor(val: t.Any, _dtype: t.Any = dtype) -> t.Any:
                 return array(val, dtype=_dtype)
 
